@@ -69,7 +69,7 @@ package utils
 //@ func CountOf
 //@   mode bv
 //@   loop 0 invariant -1 <= rangeindex && rangeindex < len(buffs)
-//@   ensures_assumed range: 0 <= result && result <= 1<<48
+//@   ensures_assumed range: 0 <= result && result <= 1<<47
 
 // io.Writer: "implementations must not retain p". ByteStealer does retain its first chunk, which is
 // sound only for sources that never reuse the chunk: StealBytes requires such a source.
